@@ -234,7 +234,9 @@ func c15GenRedir(t *rapid.T) string {
 	}
 	prefix := pick(t, "prefix", "", "", "", "", " ", "\t", "\x01", "\n", "\r\n", "\x00", "\x1f ", "\u00a0", "  ")
 	scheme := pick(t, "scheme", "", "", "", "http:", "https:", "HTTPS:", "hTtP:", "javascript:", "data:", "ftp:", "file:", "ht\ttp:", "http\n:", "h\rttps:", "ws:", "x:")
-	slashes := pick(t, "slashes", "//", "//", "/\\", "\\/", "\\\\", "/", "", "///", "/\t/", "/\n/", "/\r/", "\t//", "/ /", "/%2F", "/%5C", "/\\/", "\\\t\\", "/\x01/", "/\t\\", "////")
+	slashes := pick(t, "slashes", "//", "//", "/\\", "\\/", "\\\\", "/", "", "///", "/\t/", "/\n/", "/\r/", "\t//", "/ /", "/%2F", "/%5C", "/\\/", "\\\t\\", "/\x01/", "/\t\\", "////",
+		// bytes that are not valid UTF-8 between the slashes (whatever re-encodes the answer must not drop them)
+		"/\xff/", "/\xc0\xaf/", "/\x80\xbf\xfe/", "/\xff\\")
 	host := pick(t, "host", c15Hosts...)
 	tail := pick(t, "tail", "", "", "/", "/x?y=1#z", "?x", "#f", "\\x", "/..", " ", "\t")
 	return prefix + scheme + slashes + host + tail
